@@ -518,7 +518,43 @@ def replay_comment(info):
     return None, {}
 
 
-REPLAYS = {"semicolon": replay_semicolon, "brackets": replay_brackets, "comment": replay_comment, "collapse": replay_collapse}
+def o6_prefix_context(ses, rep):
+    """O6: a parenthesised prefix keeps its parentheses on every layout path: format_prefix hands the expression to the expression
+    formatters only under ExpressionContext::Prefix (`(function() end)()`, `("x"):rep(2)`, `({}).x` do not parse without them)"""
+    from ..exprmodel import ExprRules, ENCODED
+    from . import c05
+    flagged = []
+    for fs in ("default", "full"):
+        R = ExprRules(ses, fs)
+        for f in ENCODED:
+            R.extract(f)
+        ents = c05.discover_prefix_entries(R)
+        if not ents:
+            raise Inconclusive("format_prefix: no call of an expression formatter found")
+        for fn_, ctx_, _ in ents:
+            r, m = ses.obligation(f"prefix-context/{fs}/{fn_}/{ctx_}", [], z3.BoolVal(ctx_ != "Prefix"), "format_prefix passes ExpressionContext::Prefix")
+            if r == "sat":
+                flagged.append((f"prefix-context/{fs}/{fn_}/{ctx_}", f"format_prefix calls {fn_} under ExpressionContext::{ctx_}: the parentheses of a prefix can be removed",
+                                "prefix", {"fn": fn_, "ctx": ctx_}))
+    return flagged
+
+
+def replay_prefix(info):
+    binp = common.native_build("default")
+    progs = ["local x = (function(argument_one) return argument_one end)()\n", "local y = (\"some_rather_long_string_value_here\"):rep(2)\n",
+             "local z = ({ first_field_name = 1, second_field_name = 2 }).first_field_name\n", "(function() end)()\n"]
+    for src in progs:
+        for w in (120, 60, 30, 12, 5):
+            rc, out, err = common.run_stylua(binp, src, ["--column-width", str(w)])
+            if rc != 0:
+                continue
+            ok, perr = parses(binp, out, "lua51")
+            if not ok:
+                return f"--column-width {w}: {src.strip()!r} is printed as {out.strip()!r}, which does not parse", {"source": src, "args": ["--column-width", str(w)], "output": out}
+    return None, {}
+
+
+REPLAYS = {"prefix": replay_prefix, "semicolon": replay_semicolon, "brackets": replay_brackets, "comment": replay_comment, "collapse": replay_collapse}
 
 
 def run(ses, rep):
@@ -534,6 +570,7 @@ def run(ses, rep):
         flagged += o3_brackets(ses, rep, fs)
     flagged += o4_comment_newline(ses, rep)
     flagged += o5_collapse(ses, rep)
+    flagged += o6_prefix_context(ses, rep)
     # O2 through the C05 machinery (reduced)
     o2 = run_o2(ses, rep)
     rep.samples.append({"flagged": [(f[0], f[1]) for f in flagged][:6]})
@@ -546,7 +583,7 @@ def run(ses, rep):
         if v is None:
             rep.add(oid, "inconclusive", f"solver model ({what}) did not reproduce on the native build")
             continue
-        role = {"obligation": kind, **{k: v_ for k, v_ in info.items() if k in ("current", "next", "shape")}}
+        role = {"obligation": kind, **{k: v_ for k, v_ in info.items() if k in ("current", "next", "shape", "fn", "ctx")}}
         status = rep.violation(role, {"what": what, "observed": v, "kind": kind, "info": info, **rec})
         rep.add(oid, status, f"{what}; {v}")
 
